@@ -9,6 +9,8 @@ BT = 'BTree.tla transcribes the traversal algorithms of db/btree.go, low.go, pay
 MB = " (M) TLC checks algorithm = Reference on all small trees of this slice (MC_BTree, one state per case). (B) On SQLite-written databases (page sizes 512..4096 quick, ..65536 thorough; fragmented, vacuumed, auto-vacuum, overflowing and deep trees) the real operations run under a tracing pager; TLC judges every recorded operation against the Reference evaluated on the abstract page graph an independent reader extracted from the same file, and compares the recorded lock/page/callback events with the transcribed algorithm's (conformance, reported as drift, never a verdict). (C) SQLite's own answer to the same query must equal the Reference, else exit 2."
 NOTE = TRUST
 
+LK = "Locks.tla models the kernel's POSIX lock table (per process, no self-conflict, unlock is process-wide, closing any descriptor drops all locks), SQLite's ladder (os_unix.c unixLock, every fcntl a step, failed EXCLUSIVE keeps PENDING) and sqlittle's Open/RLock/RUnlock/Close with every fcntl as a separate action (incl. the named deviation MmapOpenClosesSecondFd). "
+
 CHECKS = {
  "C11": dict(
   technique="TLA+ spec Values.tla; TLC-exhaustive algebra on a core grid; trace validation of recorded compare/Equals/Search calls by TLC; spec validated against real SQLite",
@@ -77,6 +79,19 @@ CHECKS = {
        "TraceReader.tla carries the handle state along, judges every read against the Reference on the page graph of the snapshot committed at that moment (independent reader, cross-checked with SQLite), and predicts exactly which pages must be re-read or may come from the cache; schema listings after DDL are compared with SQLite's.",
   note=NOTE + "commits happen only between operations (guaranteed by the lock protocol, C06/C07); histories are sampled (seeded), the protocol model is exhaustive only in small scope (4 pages, 3 commits)",
   design="6 C08, 3.5"),
+ "C06": dict(
+  technique="TLA+ spec Locks.tla model-checked over all interleavings; trace validation by TLC (TraceLocks.tla, silent steps for unobservable fcntl calls) of schedules executed by real processes with the kernel lock table from /proc/locks after every step",
+  text=LK + "TLC checks SharedWhileReading, Released, NoWriterWhileReading, YieldToWriters, WriterLadderOK for 2 handles in 2 processes + 2 writers (all interleavings), and exhibits the same-process counterexample. "
+       "Real schedules: every high level operation x exit path (normal, early stop, missing table/column/index, injected read error incl. nested lookup, callback panic); reader parked after the lock / at a page read / inside the callback while a real SQLite connection tries BEGIN IMMEDIATE, UPDATE, COMMIT; a second handle opening/reading/closing meanwhile (other process and same process); scans after the file grew. "
+       "After every step the kernel's own lock table is recorded; TLC accepts a schedule only if the table is exactly the specification's after every step, and evaluates the property on the recorded tables. The same-process lock loss is a listed known finding.",
+  note=NOTE + "Linux /proc/locks as the observation of the kernel table; interleavings INSIDE one RLock call are explored in the model only (not drivable on real processes); Windows pager not covered",
+  design="6 C06, 3.6"),
+ "C07": dict(
+  technique="TLA+ spec Locks.tla model-checked; trace validation by TLC of real schedules with a real SQLite writer parked in every lock state",
+  text=LK + "TLC checks YieldToWriters/CommittedOnly over all interleavings. A real SQLite connection is parked in UNLOCKED, SHARED, RESERVED (clean/dirty, journal header with and without magic on disk), PENDING (COMMIT refused by another reader), EXCLUSIVE (BEGIN EXCLUSIVE, cache spill) -- confirmed from /proc/locks -- and every read operation of a fresh and of a long-lived, one-commit-behind handle in another process is issued. "
+       "TLC accepts the recorded schedule only if every lock attempt succeeded or failed as the specification says and every successful read saw exactly the committed version (marker row).",
+  note=NOTE + "Linux /proc/locks; the marker row identifies the committed version; error => zero callbacks is checked on the recorded results",
+  design="6 C07, 3.6"),
 }
 
 NOT_YET = "check not built yet (work in progress; see DESIGN.md section 9 order of work)"
